@@ -169,6 +169,38 @@ def opCrash (s : DState) (toks : List String) : DState × String :=
           ({ s with cur := some nb }, s!"{head} live=ok end={s.script.length}/{fin.appHash}")
   | _, _ => (s, "err:badop")
 
+/-- `tear h w`: kill #1 in the middle of writing the WAL record `w` of height `h`; restart; kill #2
+right before that height's `SaveBlock`; restart -/
+def opTear (s : DState) (toks : List String) : DState × String :=
+  match s.cur, toks with
+  | some b, [h, nm] =>
+    match parseAddr ["cs", h, nm] with
+    | none => (s, "err:badop")
+    | some (_, h, nm, idx) =>
+      if nm != "wP" && nm != "wB" && nm != "wV" && nm != "wC" then (s, "err:badop") else
+      if b.dead then (s, "err:dead") else
+      if !supported b false h then (s, "err:unsupported") else
+      match findEv b.evs false h nm idx with
+      | none => (s, "err:noevent")
+      | some j =>
+        let dead : DState := { s with cur := some ⟨b.start, [], true, 0⟩ }
+        let p1 := tornKill (applyAll b.start ((b.evs.take j).map (·.ev)))
+        match mkBoot s [] p1 with
+        | .error e => (dead, s!"r1={errName e} r2=-")
+        | .ok (nb, _, d1) =>
+          if nb.dead then (dead, "r1=stuck r2=-") else
+          match findEv nb.evs false (d1.st + 1) "bsH" 0 with
+          | none => (dead, "r1=ok r2=-")
+          | some j2 =>
+            let p2 := applyAll p1 ((nb.evs.take j2).map (·.ev))
+            match mkBoot s [] p2 with
+            | .error e => (dead, s!"r1=ok r2={errName e}")
+            | .ok (nb2, _, d2) =>
+              if !startOK d2 then (dead, "r1=ok r2=err:wal-corrupt")
+              else if nb2.dead then (dead, "r1=ok r2=stuck")
+              else (dead, "r1=ok r2=ok")
+  | _, _ => (s, "err:badop")
+
 def hashAfter (r : Disk) (k : Nat) : Nat := chainHash (r.blocks.take k)
 
 def opMix (s : DState) (toks : List String) : DState × String :=
@@ -193,6 +225,7 @@ def step (s : DState) (t : List String) : DState × String :=
   | "events" :: rest => opEvents s rest
   | "crash" :: rest => opCrash s rest
   | "mix" :: rest => opMix s rest
+  | "tear" :: rest => opTear s rest
   | ["back"] => match s.refBoot with
     | some b => ({ s with cur := some b }, "ok")
     | none => (s, "err:badop")
